@@ -44,7 +44,14 @@ func logData(ctx context.Context, log *slog.Logger, data Data) {
 	)
 }
 
-func (f *Fetcher) exchangeKeys(ctx context.Context) error {
+func (f *Fetcher) exchangeKeys(ctx context.Context) (err error) {
+	defer func() {
+		if err != nil {
+			// a failed key exchange must not leave partial data (e.g. cookies
+			// received before the failure) behind for later requests
+			f.data = Data{}
+		}
+	}()
 	if f.QUIC.Enabled {
 		conn, _, err := dialQUIC(f.Log, f.QUIC.LocalAddr, f.QUIC.RemoteAddr, f.QUIC.DaemonAddr, &f.TLSConfig)
 		if err != nil {
